@@ -7,6 +7,7 @@ import (
 	"encoding/json"
 	"fmt"
 	"strconv"
+	"strings"
 	"testing"
 	"time"
 
@@ -606,4 +607,82 @@ func TestC17Concurrent(t *testing.T) {
 		c.Done()
 	}
 	rec.Note(fmt.Sprintf("%d goroutines x %d rounds of concurrent root / output-root computations compared with the reference", workers, rounds))
+}
+
+// TestC17HandlerFormat: the chain verifies claims against exactly the published commitment format
+// over the bytes of the message fields: a prover that hashes the strings L2 recorded (any spelling
+// of the receiver that the address codec accepts, any sender string, any denom, the full amount and
+// sequence range) with the independent implementation must be paid.
+func TestC17HandlerFormat(t *testing.T) {
+	rec := evid.For("C17")
+	runRapid(t, 150, 3000, func(rt *rapid.T) {
+		c := rec.Begin()
+		c.Class("handler-format")
+		e := henv.NewL1(henv.L1Options{NoHook: true})
+		prop, chal, sub := henv.MakeUser("c17f-p"), henv.MakeUser("c17f-c"), henv.MakeUser("c17f-s")
+		if r := e.Deliver(ophosttypes.NewMsgCreateBridge(prop.Str, henv.DefaultBridgeConfig(prop.Str, chal.Str, time.Minute))); !r.OK() {
+			panic(r.Err)
+		}
+		big, _ := math.NewIntFromString("1180591620717411303424")
+		denoms := []string{"uinit", "ibc/27394FB092D2ECCD56123C74F36E4C1F926001CEADA9CA97EA622B25F41E5EB2", "Mixed/Case-denom.x_1"}
+		for _, d := range denoms {
+			e.Fund(ophosttypes.BridgeAddress(1), sdk.NewCoin(d, big))
+		}
+		hrp := sdk.GetConfig().GetBech32AccountAddrPrefix()
+		n := rapid.IntRange(1, 5).Draw(rt, "leaves")
+		var ts []wd
+		shape := ""
+		for i := 0; i < n; i++ {
+			u := henv.MakeUser(fmt.Sprintf("c17f-r%d", rapid.IntRange(0, 3).Draw(rt, "ru")))
+			to := u.Str
+			spelling := rapid.SampledFrom([]string{"lower", "lower", "upper", "long", "short"}).Draw(rt, "spelling")
+			switch spelling {
+			case "upper":
+				to = strings.ToUpper(u.Str)
+			case "long":
+				to = bech(hrp, append(append([]byte{}, u.Addr...), bytes.Repeat([]byte{9}, 12)...))
+			case "short":
+				to = bech(hrp, u.Addr[:rapid.IntRange(1, 19).Draw(rt, "len")])
+			}
+			from := rapid.SampledFrom([]string{"l2sender", u.Str, strings.ToUpper(u.Str), "送信者 with spaces", "a\x00b", strings.Repeat("s", 300)}).Draw(rt, "from")
+			amt := rapid.SampledFrom([]uint64{1, 2, 1 << 32, 1<<63 - 1, 1 << 63, ^uint64(0)}).Draw(rt, "amount")
+			seq := rapid.SampledFrom([]uint64{1, 2, 255, 256, 1 << 32, 1 << 63, ^uint64(0)}).Draw(rt, "seq") - uint64(i)
+			if seq == 0 {
+				seq = uint64(i) + 7
+			}
+			ts = append(ts, wd{Bridge: 1, Seq: seq, From: from, To: to, Denom: rapid.SampledFrom(denoms).Draw(rt, "denom"), Amount: amt})
+			shape += spelling[:2]
+			c.Class("handler-format/receiver-" + spelling)
+		}
+		o := buildOutput(ts, byte(rapid.IntRange(0, 255).Draw(rt, "version")), rapid.SliceOfN(rapid.Byte(), 32, 32).Draw(rt, "blockhash"))
+		if r := e.Deliver(ophosttypes.NewMsgProposeOutput(prop.Str, 1, 1, 10, o.Root[:])); !r.OK() {
+			panic(r.Err)
+		}
+		e.Advance(2 * time.Minute)
+		for i, tu := range ts {
+			dup := false
+			for _, prev := range ts[:i] {
+				if prev.leaf() == tu.leaf() {
+					dup = true
+				}
+			}
+			if dup {
+				continue
+			}
+			r := e.Deliver(claimMsg(sub.Str, tu, o, 1, i))
+			if !r.OK() {
+				rt.Fatalf("C17 violated: a claim whose commitment was computed by the published format over the message's own fields is rejected: %v\n  withdrawal: seq=%d from=%q to=%q amount=%d%s (leaf %d of %d)", r.Err, tu.Seq, truncStr(tu.From, 40), tu.To, tu.Amount, tu.Denom, i, n)
+			}
+			evs := henv.EventAttrs(r.Events, ophosttypes.EventTypeFinalizeTokenWithdrawal)
+			if len(evs) != 1 || evs[0][ophosttypes.AttributeKeyTo] != tu.To || evs[0][ophosttypes.AttributeKeyFrom] != tu.From {
+				rt.Fatalf("C17 violated: the finalize_token_withdrawal event does not carry the committed strings: %v (committed from=%q to=%q)", evs, truncStr(tu.From, 40), tu.To)
+			}
+		}
+		c.NonTrivial()
+		c.Shape(fmt.Sprintf("handler-format/%d/%s", n, shape))
+		c.Sample(func() interface{} {
+			return map[string]interface{}{"kind": "claims verified by the chain against independently computed commitments", "leaves": n, "receiver_spellings": shape}
+		})
+		c.Done()
+	})
 }
